@@ -267,7 +267,16 @@ func genTsParse(g *gen) {
 		return res, found
 	}
 	s1, ok1 := sepOf("TestScript.Setenv")
-	s2, ok2 := sepOf("TestScript.setup")
+	// the map is filled by setEnv (called from setup) in newer trees, by setup itself in older ones
+	mapFiller := "TestScript.setup"
+	for _, f := range g.files(dir) {
+		for _, d := range f.Decls {
+			if fd, ok := d.(*ast.FuncDecl); ok && fd.Recv != nil && fd.Name.Name == "setEnv" {
+				mapFiller = "TestScript.setEnv"
+			}
+		}
+	}
+	s2, ok2 := sepOf(mapFiller)
 	s3, ok3 := sepOf("TestScript.cmdEnv")
 	if ok1 && ok2 && ok3 {
 		if len(s1) != 1 || s1 != s2 || s1 != s3 {
